@@ -3,15 +3,19 @@ import os
 from pathlib import Path
 
 
-@functools.lru_cache(maxsize=50)
 def package_path(package: str) -> Path:
-    """Join the current working path with the package name."""
+    """Join the current working path with the package name.
+
+    Not memoised, the result depends on the current working directory.
+    """
     return Path.cwd().joinpath(package.replace(".", "/")).parent
 
 
-@functools.lru_cache(maxsize=50)
 def module_path(module: str) -> Path:
-    """Join the current working path with the given module name."""
+    """Join the current working path with the given module name.
+
+    Not memoised, the result depends on the current working directory.
+    """
     return Path.cwd().joinpath(module.replace(".", "/"))
 
 
